@@ -80,6 +80,13 @@ func genC08History(g *Gen) any {
 	if g.Bool(0.4) {
 		sc.FirstN = g.Int(2, 16)
 	}
+	if g.Bool(0.15) {
+		// many simultaneous first presentations at the very instant a clean-up
+		// pass runs: whatever the pass does in several steps is interleaved with
+		// the test-and-set of the presentations
+		sc.FirstAtMS = (k + 1) * cleanMS
+		sc.FirstN = g.Int(3, 16)
+	}
 	return sc
 }
 
@@ -246,6 +253,12 @@ func abs64(x int64) int64 {
 func init() {
 	pol := func(g *Gen) simsync.PolicyConfig {
 		p := SwarmPolicy(g)
+		if g.Bool(0.3) {
+			// the only background task here is the replay-memory cleaner: preempt
+			// it once, somewhere in a pass, while presentations run
+			p = Pre1Policy(g, p)
+			p.PreSys = true
+		}
 		p.Stall = 0
 		return p
 	}
